@@ -65,6 +65,13 @@ func corpus() []*hist {
 			RB, G(1<<60), K(kLen), RB, UB, G(-1), R(9), G(maxInt), WB(7), K(kBytes)),
 		fixed("corpus-eq", true, initSpec{k: iNew, data: seq(8, 1), cp: 8}, R(8), G(1<<52), K(kBytes), WB(1), R(1), G(maxInt/2+1), K(kLen)),
 		fixed("corpus-tex", false, initSpec{k: iNewSized, size: 4}, K(kBytes), K(kLen), G(1<<49), W(seq(4, 1)), G(maxInt), RW(0, 9), G(-5), K(kBytes)),
+		// the state a recovered panic leaves behind: a panicking call in the middle of a history, right after a read, then Unread*
+		fixed("corpus-eq", true, zero, W(seq(12, 1)), RB, T(99), UB, RB, T(-1), UB, W([]byte{0xe2, 0x82, 0xac}), RR, T(50), UR, RB, N(-1), UB, RB, G(-1), UB,
+			RB, &gop{k: kWriteTo, m: 99, e: 0}, UB, RB, &gop{k: kReadFrom, sc: []chunk{{nil, -1}}}, UB, RR, G(-3), UR, RR, N(-2), UR),
+		fixed("corpus-tex", false, zero, W(seq(6, 1)), RB, RW(-1, 1), UB, RB, RB, RW(99, 1), UB, RR, RW(7, 1), UR, RB, T(9), UB),
+		// a method on a nil receiver: String answers "<nil>", Len is a nil dereference - on both types
+		fixed("corpus-eq", true, zero, &gop{k: kNil, n: 0}, &gop{k: kNil, n: 1}, WB(1), &gop{k: kNil, n: 0}, RB, &gop{k: kNil, n: 0}, UB),
+		fixed("corpus-tex", false, zero, &gop{k: kNil, n: 0}, &gop{k: kNil, n: 1}, K(kString)),
 		// NewSizedBuffer
 		fixed("corpus-tex", false, initSpec{k: iNewSized, size: -1}),
 		fixed("corpus-tex", false, initSpec{k: iNewSized, size: 0}, K(kBytes), K(kLen), K(kCap), WB(1), RB, UB),
